@@ -183,6 +183,7 @@ struct MappedClass {
         }
         for (auto &s : live) p.item('O', "query " + s);
         if (have_f1 && have_f2) p.item('O', "compare-files");
+        { Rng use = sim::stream(g.run_seed, "usage"); if (!live.empty() && !sweep && use.chance(200)) p.item('O', "successor " + live[use.below(live.size())]); }
         (void) st;
         return p;
     }
@@ -322,6 +323,38 @@ struct MappedClass {
                 auto it = c.inst.find(o.slot);
                 if (it == c.inst.end()) continue;
                 if (c.check_c11) check_queries(c, *it->second.idx, what, out, tr, st);
+            } else if (o.kind == "successor") {
+                // History step: the container queried last is destroyed and a container over different keys is created straight
+                // away (the allocator hands the same address back); its first queries repeat the destroyed container's last ones.
+                if (c.inst.empty() || !c.check_c11 || d.size() < 4 || c.queries.empty()) continue;
+                auto last = c.inst.find(o.slot) != c.inst.end() ? c.inst.find(o.slot) : c.inst.begin();
+                check_queries(c, *last->second.idx, what + " (before the successor)", out, tr, st);
+                if (!out.ok) break;
+                c.inst.erase(last);
+                std::vector<K> d2;
+                for (size_t i = 0; i < d.size(); ++i) if ((i & 1) || i + 1 == d.size()) d2.push_back(d[i]);
+                std::string f3 = c.f1 + ".successor";
+                sim::io_begin_op({});
+                sim::begin_run(c.env);
+                std::unique_ptr<Index> ix;
+                try { ix.reset(new Index(d2.begin(), d2.end(), f3)); } catch (const std::exception &e) { out.fail("unexpected-exception", what + ": creating the successor container threw: " + e.what()); }
+                sim::end_run();
+                c.calls_per_op[oi] = sim::io_end_op();
+                if (!out.ok) break;
+                st.inc("successor_runs");
+                for (size_t qi = c.queries.size(); qi-- > 0 && out.ok;) {
+                    K q = c.queries[qi];
+                    std::string focus = "Q " + key_text(q);
+                    size_t lb = std::lower_bound(d2.begin(), d2.end(), q) - d2.begin(), ub = std::upper_bound(d2.begin(), d2.end(), q) - d2.begin();
+                    size_t glb = ix->lower_bound(q) - ix->begin(), gub = ix->upper_bound(q) - ix->begin();
+                    tr.add(glb); tr.add(gub);
+                    if (glb != lb) out.fail("lower_bound", what + ": successor container (other keys, same address): lower_bound(" + key_text(q) + ") = " + std::to_string(glb) + ", std::lower_bound = " + std::to_string(lb), focus);
+                    else if (gub != ub) out.fail("upper_bound", what + ": successor container: upper_bound(" + key_text(q) + ") = " + std::to_string(gub) + ", std::upper_bound = " + std::to_string(ub), focus);
+                    else if (ix->count(q) != ub - lb) out.fail("count", what + ": successor container: count(" + key_text(q) + ") != " + std::to_string(ub - lb), focus);
+                    else if (ix->contains(q) != (ub > lb)) out.fail("contains", what + ": successor container: contains(" + key_text(q) + ") wrong", focus);
+                }
+                ix.reset();
+                ::unlink(f3.c_str());
             } else if (o.kind == "destroy") {
                 c.inst.erase(o.slot);
             } else if (o.kind == "compare-files") {
